@@ -374,7 +374,7 @@ Definition wf_node (x : bytes * pnode) : bool :=
     && forallb (fun l => forallb (fun c => negb (is_sp c)) l
                          && match l with c :: _ => negb (Ascii.eqb c (nb 35)) | [] => true end)
                (match pa with Some l => l | None => [] end)
-  | PLink t => negb (isnil t) && Nat.leb (length t) 256
+  | PLink t => negb (isnil t)
   end.
 Definition line_atoms (l : bytes) : list bytes :=
   match l with
